@@ -28,8 +28,9 @@ func init() {
 	})
 }
 
-const prelude = `oo := {v: 1, f: m{|x| "uf".p; x}, bad: m{"ub".p; raise ValueErr.new("vm")}, w: m{{v: 2}}}
+const prelude = `oo := {v: 1, f: m{|x| "uf".p; x}, bad: m{"ub".p; raise ValueErr.new("vm")}, w: m{{v: 2}}, err1: m{1.try.{|n| raise TypeErr.new("captured")}.err}}
 idf := {|x| "vc".p; x}
+ew := 1.try./(0).err
 `
 
 type step struct {
@@ -46,6 +47,9 @@ func alphabet() []step {
 		{Src: ".foo", Tag: "absent"}, {Src: ".v", Tag: "noncallable", Obj: true}, {Src: ".bad", Obj: true}, {Src: ".f(7)", Obj: true}, {Src: ".w", Obj: true},
 		{Src: `.{|x| "s".p; x}`}, {Src: `.{|x| "s".p; nil}`}, {Src: `.{|x| "s".p; [x]}`}, {Src: `.{|x| "s".p; 1 / 0}`}, {Src: `.{|x| "s".p; x.nosuch}`}, {Src: ".^idf"},
 		{Src: `.{|x| "s".p; x + 1}`},
+		// a step that SUCCEEDS and returns an error object (an ordinary value); steps returning Either values are not
+		// generated: later steps of the plain chain would then run on an Either, which is no plain baseline
+		{Src: `.{|x| "s".p; ew}`}, {Src: `.{|x| "s".p; [ew]}`}, {Src: ".err1", Obj: true},
 	}
 	for i, k := range errKinds {
 		a = append(a, step{Src: fmt.Sprintf(`.{|x| "s".p; raise %s.new("m%d")}`, k, i)})
@@ -58,7 +62,7 @@ func reducedAlphabet() []step {
 		{Src: `.{|x| "s".p; raise TypeErr.new("m7")}`}, {Src: `.{|x| "s".p; 1 / 0}`}, {Src: ".^idf"}, {Src: ".bad", Obj: true}, {Src: ".v", Tag: "noncallable", Obj: true}}
 }
 
-var receivers = []string{"5", `"a"`, "[1, 2]", "oo", "nil"}
+var receivers = []string{"5", `"a"`, "[1, 2]", "oo", "nil", "ew"}
 
 type accessor struct {
 	Src string
